@@ -1,6 +1,7 @@
 import LekkerVerif.Properties.C18
 import LekkerVerif.Properties.C03
 import LekkerVerif.Core.Subst
+import LekkerVerif.Core.MonitorSpec
 
 /-! # C10 — monitors report the true internal waves and do not disturb the circuit
 
@@ -85,3 +86,31 @@ theorem C10_network_waves {P : Type} [DecidableEq P] {K : Type} [Field K]
   have e2 : a ∘ cA = b ∘ cB := by
     funext i; exact (hl links[i] (List.getElem_mem _)).1
   rw [e1, e2]
+
+
+/-! ### the executable monitor path (`Core/Monitor.lean`, run by the native driver and compared with `get_monitor`) -/
+
+/-- **the executable `int_complete` is the regenerated kernel**: whenever the transcription of `S_matrix.int_complete` that the
+driver runs returns, entry `i` of the two lists it returns is entry `i` of what `Generated.intComplete` (traced from the
+current `scattering.py`) gives on the same operands seen as Mathlib matrices - so `C10_waves` / `C10_network_waves` apply to
+the numbers the correspondence compares with `get_monitor` -/
+theorem C10_exec_waves {K : Type} [Field K] [DecidableEq K] (A B : SMat K) (hA : A.WF) (hB : B.WF) (u d uo dd : List K)
+    (hu : u.length = A.N) (hd : d.length = B.M) (h : Monitor.intComplete? A B u d = .ok (uo, dd)) :
+    ((fun i : Fin A.M => uo.getD i.1 0), (fun i : Fin A.M => dd.getD i.1 0))
+      = Generated.intComplete (A.toSM A.N A.M) (B.toSM A.M B.M) (fun i : Fin A.N => u.getD i.1 0)
+          (fun i : Fin B.M => d.getD i.1 0) :=
+  Monitor.intComplete?_is_generated A B hA hB u d uo dd hu hd h
+
+/-- **which links are reported**: the read-out lists exactly the connections of `main`'s table whose far end lies in a member
+of the monitored composite - one per such entry, in the table's order, each symmetric (the monitored side's table points
+back) - i.e. the links that join a monitored to a non-monitored component, and no other -/
+theorem C10_reported_links {K : Type} [Scalar K] (main mon : St K) (exc : PinRef → K) (r : Monitor.Readout K)
+    (h : Monitor.intermediate main mon exc = .ok r) :
+    r.links.map (·.1) = main.getOutTo mon ∧
+    (∀ p, p ∈ main.getOutTo mon ↔ ∃ q, (p, q) ∈ main.conn ∧ mon.group.contains q.1 = true) ∧
+    ∀ l ∈ r.links, lookupL main.conn l.1 = some l.2 ∧ lookupL mon.conn l.2 = some l.1 := by
+  have hl := Monitor.intermediate_links main mon exc r h
+  refine ⟨St.linkPins_fst main mon r.links hl, fun p => St.mem_getOutTo main mon p, ?_⟩
+  intro l hmem
+  have := St.linkPins_sound main mon r.links hl l hmem
+  exact ⟨this.1, this.2.1⟩
